@@ -22,14 +22,15 @@ Consume(A) == l <= Len(Tr) /\ A /\ pver' = Ev.pver /\ l' = l + 1 /\ tid' = tid
 \* internal steps of the automaton that have no observable event
 Silent(A)  == A /\ l' = l /\ tid' = tid
 
+\* Observable events: Simulate (arguments, and whether every gradient the optimiser owns was clear at that moment),
+\* Forward (mode and grad flags), OptStep, FitEnd.  train()/eval()/zero_grad()/backward() are inferred (silent): what the
+\* property constrains is their EFFECT at the observable events, not the way the code brings it about.
 TNext ==
-  \/ Silent(Configure) \/ Silent(Backward /\ l <= Len(Tr) /\ Ev.op = "OptStep") \/ Silent(AppendHistory) \/ Silent(EndEpoch)
-  \/ Consume(Ev.op = "Simulate" /\ (MaterialiseSim(Ev.n, Ev.init) \/ Simulate(Ev.n, Ev.init) \/ VSimulate(Ev.n, Ev.init)))
+  \/ Silent(Configure) \/ Silent(Train) \/ Silent(ZeroGrad) \/ Silent(Eval)
+  \/ Silent(Backward /\ l <= Len(Tr) /\ Ev.op = "OptStep") \/ Silent(AppendHistory) \/ Silent(EndEpoch)
+  \/ Consume(Ev.op = "Simulate" /\ (MaterialiseSim(Ev.n, Ev.init) \/ (Simulate(Ev.n, Ev.init) /\ Ev.clear) \/ VSimulate(Ev.n, Ev.init)))
   \/ Consume(Ev.op = "Forward" /\ (MaterialiseFwd \/ Forward(Ev.mode, Ev.grad) \/ VForward(Ev.mode, Ev.grad)))
-  \/ Consume(Ev.op = "Train" /\ Train)
-  \/ Consume(Ev.op = "ZeroGrad" /\ ZeroGrad)
   \/ Consume(Ev.op = "OptStep" /\ Step)
-  \/ Consume(Ev.op = "Eval" /\ Eval)
   \/ Consume(Ev.op = "FitEnd" /\ Finish(Ev.hist))
 TSpec == TInit /\ [][TNext]_tvars
 
